@@ -336,6 +336,12 @@ class Evaluator:
                     return Bits(recv[off + i] if 0 <= off + i < len(recv) else 0 for i in range(w))
                 if m == "word_select" and len(args) == 2:
                     off, w = args
+                    if isinstance(off, Bits):
+                        from . import bitalg
+
+                        off = bitalg.concrete(off)
+                    if not isinstance(off, int) or not isinstance(w, int):
+                        raise NotEvaluable("word_select with a non-concrete offset")
                     return Bits(recv[off * w + i] if 0 <= off * w + i < len(recv) else 0 for i in range(w))
                 if m == "replicate" and len(args) == 1:
                     return Bits(tuple(recv) * args[0])
